@@ -65,13 +65,13 @@ pub fn check(a: &Analysis, aux: &mut Aux, t: &mut Tally) -> Vec<Violation> {
                             detail: format!("SYN seq {:#x} (payload {} bytes) acknowledged with {:#x}, expected seq+1", th.seq, th.pay_len, r.ack),
                         });
                     }
-                    if r.seg_len != 20 {
+                    if r.seg_len != (r.doff as usize * 4).max(20) {
                         v.push(Violation {
                             prop: "C06",
                             rule: "synack-payload".into(),
                             key: "synack-payload".into(),
                             step: s.idx,
-                            detail: format!("SYN-ACK TCP segment has {} bytes, expected a bare 20-byte header", r.seg_len),
+                            detail: format!("SYN-ACK TCP segment has {} bytes with data offset {}: it carries payload", r.seg_len, r.doff),
                         });
                     }
                 }
